@@ -150,6 +150,20 @@ func init() {
 			nchg = 6000
 		}
 		const pool = "ABCDEFHIJKLMNOPQRSTVW"
+		// every ordered pair of pool schemas once, two samples each
+		npair := 0
+		for a := 0; a < len(pool); a++ {
+			for b := 0; b < len(pool); b++ {
+				if a == b {
+					continue
+				}
+				npair++
+				kind := []string{"dyn", "sdyn"}[npair%2]
+				docs := [][]elem{poolDoc(r, pool[a]), poolDoc(r, pool[a]), poolDoc(r, pool[b]), poolDoc(r, pool[b])}
+				id++
+				runAndRead(ho, ro, id, sameSchemaCase(kind, pickWrapper(r, kind), 1+r.intn(4), docs), false)
+			}
+		}
 		for i := 0; i < nchg; i++ {
 			kind := []string{"dyn", "sdyn"}[r.intn(2)]
 			var docs [][]elem
